@@ -113,7 +113,12 @@ def render_obj(o, ch, declared, use_base):
     return '"%s"%s' % (o[1], DTYPES[o[2]][0])
 
 
-def obj_expected(o):
+ALT_XSD = "http://ex.org/dtx/"      # a document may bind the label 'xsd' to a namespace of its own: a label is only a label
+
+
+def obj_expected(o, alt=False):
+    if alt and o[0] == "lit" and DTYPES[o[2]][2] == "xsd":
+        return ("lit", ALT_XSD + DTYPES[o[2]][0].split(":", 1)[1])
     if o[0] == "iri":
         return ("iri", o[1])
     if o[0] == "bnode":
@@ -144,8 +149,12 @@ def build(case):
             decl.add(p)
     header = []
     declared = {}
+    alt = bool(case.get("xsd_alt"))
     for p, ns in PREFIXES:
         if p in decl:
+            if alt and p == "xsd":
+                ns = ALT_XSD
+                labels.add("xsd-label-bound-elsewhere")
             header.append("@prefix %s: <%s> ." % (p, ns))
             declared[p] = ns
     rebind = Chooser(case.get("rebind"))
@@ -180,7 +189,7 @@ def build(case):
             else:
                 stoks[0] = RAW_SUBJECTS[(raw_obj - len(RAW_OBJECTS)) % len(RAW_SUBJECTS)]
         n_stmt[0] += 1
-        expected.append((tuple(s), p, obj_expected(o)))
+        expected.append((tuple(s), p, obj_expected(o, alt)))
         j = i + 1
         cur_p = p
         while j < n and triples[j][0] == s and gr.pick(3) != 0:
@@ -192,7 +201,7 @@ def build(case):
                 stoks += [";", render_iri(p2, ch, declared, use_base, "p"), render_obj(o2, ch, declared, use_base)]
                 labels.add("semicolon")
                 cur_p = p2
-            expected.append((tuple(s2), p2, obj_expected(o2)))
+            expected.append((tuple(s2), p2, obj_expected(o2, alt)))
             j += 1
         if case.get("dangling") and gr.pick(3) == 0:
             stoks.append(";")           # 'ex:s ex:p ex:o ; .'
@@ -484,7 +493,7 @@ def cases(draw):
             seen.add(key)
             triples.append([list(s), p, o])
     ints = st.lists(st.integers(0, 41), min_size=1, max_size=24)
-    case = {"triples": triples, "forms": draw(ints), "seps": draw(ints), "comments": draw(ints), "comment_seps": draw(ints), "group": draw(ints),
+    case = {"triples": triples, "forms": draw(ints), "seps": draw(ints), "comments": draw(ints), "comment_seps": draw(ints), "xsd_alt": draw(st.integers(0, 7)) == 0, "group": draw(ints),
             "base": draw(st.sampled_from([False, True, 2])), "prefix_mask": draw(st.integers(0, 255)),
             "chan": draw(st.sampled_from(["raw", "raw", "raw", "raw", "file", "gz", "xz"])), "dangling": draw(st.integers(0, 3)) == 0}
     if draw(st.integers(0, 3)) == 0:
